@@ -71,6 +71,7 @@ type FuncSpec struct {
 	Owned      []string // locals that must only ever hold slices allocated by this activation
 	Acquires   []*Clause // mutexes this function locks itself: a caller must not hold them
 	Tables     []ConstTable
+	Readonly   []string // map/slice parameters the function must not write through
 	File       string
 	Line       int
 	Used       bool
@@ -436,6 +437,14 @@ func (sp *Specs) LoadSpecFile(path, pkgName string) {
 				if c := mkClause(l, part); c != nil {
 					cur.Acquires = append(cur.Acquires, c)
 				}
+			}
+		case "readonly":
+			if cur == nil {
+				errf(l, "readonly outside func block")
+				continue
+			}
+			for _, part := range splitTop(rest) {
+				cur.Readonly = append(cur.Readonly, strings.TrimSpace(part))
 			}
 		case "owned":
 			if cur == nil {
